@@ -142,9 +142,9 @@ def check_case(ctx, case):
             ctx.violation("scalar_and_array_lookup_disagree", {"pt": [x, y], "array": got, "scalar": got2}, c1)
         if len(want) == 1:
             if got != want:
-                ctx.violation("point_not_mapped_to_containing_tile", {"pt": [x, y], "got": [keys[i] for i in got], "want": keys[want[0]], "bounds": list(b[want[0]])}, c1)
+                ctx.violation("point_not_mapped_to_containing_tile", {"pt": [x, y], "got": [keys[i] if 0 <= i < len(keys) else "index %d of %d" % (i, len(keys)) for i in got], "want": keys[want[0]], "bounds": list(b[want[0]])}, c1)
         elif len(want) == 0 and got:
-            ctx.violation("point_in_no_tile_was_mapped", {"pt": [x, y], "got": [keys[i] for i in got]}, c1)
+            ctx.violation("point_in_no_tile_was_mapped", {"pt": [x, y], "got": [keys[i] if 0 <= i < len(keys) else "index %d of %d" % (i, len(keys)) for i in got]}, c1)
     # array lookup returns matches only, in order
     if len(pts) <= 4000:
         xs = [p[0] for p in pts]
